@@ -853,6 +853,15 @@ def _evaluate(res, prop, config, req, out, hooks):
             ("C08",), "hang",
             (config, "worker-deadlock") if "blocked" in why else (config,),
             why or "quiescent but result not done"))
+        if req.variant == "normal" and req.op.kind == "mutation" and \
+                exp is not None and not exp.crash:
+            # a mutation that never completes: some root field was prevented
+            # from running / finishing (C09's "does not prevent the later
+            # ones from running")
+            V.append(Violation(
+                ("C09",), "serial_continue", (config, "never-finished"),
+                "mutation left pending at quiescence: %s" % (
+                    why or "result not done")))
         return
     if req.variant == "shared-error":
         # One ResolverError instance raised by two fields of the request: the
@@ -967,6 +976,14 @@ def _evaluate(res, prop, config, req, out, hooks):
             res.count("probe:document_without_locations")
         if req.op.kind == "mutation":
             V.extend(oracles.check_serial(config, exp, events))
+            got_keys = list(out.result.data.keys()) if isinstance(
+                out.result.data, dict) else None
+            if got_keys is not None and got_keys != exp.root_keys and \
+                    sorted(got_keys) == sorted(exp.root_keys):
+                V.append(Violation(
+                    ("C09",), "serial_order", (config, "response-key-order"),
+                    "the response lists the root fields as %r, the document "
+                    "as %r" % (got_keys, exp.root_keys)))
         V.extend(oracles.check_wellformed("execution", config, out.result,
                                           req.text, exp))
         V.extend(oracles.check_hooks(
